@@ -210,6 +210,9 @@ def _np_shape(r, op):
     return op
 
 
+ARG_SPELLINGS = ['list', 'list', 'tuple', 'np-list', 'ndarray']
+
+
 def gen_op(ctx, r, shape, cshape, coord):
     """One operation for a volume of the given spatial/channel shape; returns (op, new spatial shape, new channel shape)."""
     kinds = ['getitem'] * 5 + ['flip'] * 2 + ['permute'] * 2 + ['swap', 'pad', 'pad', 'pad', 'pad_to', 'crop_to',
@@ -254,22 +257,22 @@ def gen_op(ctx, r, shape, cshape, coord):
             axes = axes[0]
         elif r.random() < 0.1:
             axes = r.choice([[], [axes[0], axes[0]]])
-        return {'op': 'flip', 'axes': axes}, n, cshape
+        return {'op': 'flip', 'axes': axes, 'arg_spelling': r.choice(ARG_SPELLINGS)}, n, cshape
     if kind == 'permute':
         p = [0, 1, 2]
         r.shuffle(p)
         if bad:
             p = r.choice([[0, 1], [0, 1, 1], [0, 1, 3], [1, 2, 3], [0, 1, 2, 2], [-1, 0, 1]])
-            return {'op': 'permute', 'indices': p}, n, cshape
-        return {'op': 'permute', 'indices': p}, [n[i] for i in p], cshape
+            return {'op': 'permute', 'indices': p, 'arg_spelling': r.choice(ARG_SPELLINGS)}, n, cshape
+        return {'op': 'permute', 'indices': p, 'arg_spelling': r.choice(ARG_SPELLINGS)}, [n[i] for i in p], cshape
     if kind == 'swap':
         a, b = r.sample([0, 1, 2], 2)
         if bad:
             a, b = r.choice([(0, 0), (1, 3), (-1, 2), (3, 3)])
-            return {'op': 'swap', 'a': a, 'b': b}, n, cshape
+            return {'op': 'swap', 'a': a, 'b': b, 'arg_spelling': r.choice(ARG_SPELLINGS)}, n, cshape
         new = list(n)
         new[a], new[b] = n[b], n[a]
-        return {'op': 'swap', 'a': a, 'b': b}, new, cshape
+        return {'op': 'swap', 'a': a, 'b': b, 'arg_spelling': r.choice(ARG_SPELLINGS)}, new, cshape
     if kind in ('pad', 'pad_to', 'pad_or_crop_to'):
         mode = r.choice(MODES + ['CONSTANT', 'constant', 'edge'])
         cval = r.choice([0, -1, -7, -1000, 99991, -3.5, 2.5])
@@ -427,6 +430,16 @@ def build(spec):
     return v, g
 
 
+def _spell_seq(xs, sp):
+    if sp == 'tuple':
+        return tuple(xs)
+    if sp == 'np-list':
+        return [np.int64(x) for x in xs]
+    if sp == 'ndarray':
+        return np.array(xs, dtype=np.int32) if len(xs) else xs
+    return xs
+
+
 def _with_layout(arr, layout):
     """the same values in another memory layout (guide 3a): Fortran order, a transposed view, a strided view into a larger
     buffer, a negative-stride view, a read-only array"""
@@ -485,11 +498,14 @@ def apply_op(obj, op, is_volume, state=None):
         pad_kw = {'mode': mode, 'constant_value': op['cval'], 'per_channel': op['per_channel']}
     if k == 'getitem':
         return obj[_py_index(op['index'])]
+    sp = op.get('arg_spelling')        # list / tuple / ndarray of Python or numpy integers (guide 3a)
     if k == 'flip':
-        return obj.flip_spatial(op['axes'])
+        return obj.flip_spatial(_spell_seq(op['axes'], sp) if isinstance(op['axes'], list) else op['axes'])
     if k == 'permute':
-        return obj.permute_spatial_axes(op['indices'])
+        return obj.permute_spatial_axes(_spell_seq(op['indices'], sp))
     if k == 'swap':
+        if sp in ('np-list', 'ndarray', 'np-scalar'):
+            return obj.swap_spatial_axes(np.int64(op['a']), np.int32(op['b']))
         return obj.swap_spatial_axes(op['a'], op['b'])
     if k == 'pad':
         w = op['width']
@@ -1408,6 +1424,7 @@ def run_history(ctx, spec, length, r, reqs, pending):
                  mode=(op.get('mode') or '').upper() or None, channel_dims=len(cshape), orientation=oclass, handedness=hand,
                  shape_in='x'.join(map(str, sorted(v.spatial_shape))), coord=spec['coord'],
                  per_channel=op.get('per_channel'), layout=spec.get('layout', 'C'),
+                 arg_spelling=(f"{op['op']}/{op['arg_spelling']}" if op.get('arg_spelling') else None),
                  index_spelling=('/'.join(sorted({it.get('sp', 'py') for it in (op['index']['v'] if op['index']['t'] == 'tuple'
                                                                                  else [op['index']])}))
                                  if op['op'] == 'getitem' else None))
